@@ -188,6 +188,12 @@ def request(c):
                 acc[(i, j)] = acc.get((i, j), 0) + v
             ents = [(i, j, v) for (i, j), v in sorted(acc.items())]
         data = show_mat(ents)
+    elif c.ctor in ("climate", "coupled", "res"):
+        a, b = c.N, show_rat(c.thr)
+        data = show_mat(c.sp["S"], show_rat)
+    elif c.ctor == "recurrence":
+        a, b = c.N, show_rat(c.thr)
+        data = show_rats(c.sp["series"])
     elif c.ctor == "edges":
         a, b = ("none" if c.n_nodes is None else c.n_nodes), 0
         data = show_mat(c.edges)
@@ -197,7 +203,7 @@ def request(c):
     w = "none" if c.w is None else show_rats(c.w)
     if c.V is None:
         attr = "none"
-    elif c.ctor == "igraph":
+    elif c.ctor == "igraph" and not c.sub:
         attr = show_rats([c.V[i][j] for i, j in c.edges])
     else:
         attr = show_mat(c.V, show_rat)
@@ -562,11 +568,15 @@ def model_request(c):
         # derived (CoupledClimateNetwork runs Network.__init__ once more on the result: theorem
         # derived_constructors); re-thresholding re-runs it on the live object, which forgets
         # everything that happened before
-        kw = dict(ctor="dense", form="list", shape=(c.N, c.N))
+        # the Lean model derives the matrix itself (thresholdMat / recurrenceMat / resMat)
+        kw = dict(ctor=c.sub if c.sub in ("climate", "coupled", "recurrence", "res") else "dense",
+                  form="list", shape=(c.N, c.N), thr=c.sp.get("thr", 0))
         if "rethr" in ops:
             k = max(i for i, op in enumerate(ops) if op == "rethr")
             ops = ops[k + 1:]
-            kw.update(A=c.sp["A2"], w=None, V=None)
+            kw.update(A=c.sp["A2"], w=None, V=None, thr=c.sp["thr2"])
+            if c.sub == "coupled":
+                kw["ctor"] = "climate"      # set_threshold is ClimateNetwork's
     c2 = Case(**{**c.__dict__, "ops": ops, **kw})
     return request(c2)
 
